@@ -351,3 +351,13 @@ Example C12_ex_overlap :
   nm_log (new_map_t nopf (s":") add_new_val_t ex_recv ex_pairs) =
     [WSet (s"x") false; WSet (s"x") false; WSet (s"d") false].
 Proof. vm_compute. repeat split. Qed.
+
+(* ---- tie to the CURRENT source of what NewMap reads the old values with: Map.ValuesForPath (keyvalues.go),
+   re-translated by go2v on every run (Gen/Pure_gen.v) and proved equal to the model function [values_for_path]
+   the theorems above are stated with (GenProofs/PureG5.v, PureG7.v) *)
+From Mxj Require Import Gen.Setters_gen Gen.PureSupport Gen.Pure_gen Model.KeyValues GenProofs.PureG5 GenProofs.PureG7.
+
+Theorem C12_values_for_path_code_is_model : forall pf st m path subkeys, g_fieldSep st <> [] ->
+  run_ValuesForPath pf st m path subkeys = values_for_path pf (g_fieldSep st) (VMap m) path subkeys.
+Proof. exact run_ValuesForPath_eq. Qed.
+Print Assumptions C12_values_for_path_code_is_model.
